@@ -574,7 +574,59 @@ def _solver_fail(kind, solver, env, mgr):
     raise ValueError(kind)
 
 
+def factory_cases(rep):
+    """A refused registration / selection on the solver factory leaves no
+    trace: twin environments, one of which sees the failing calls."""
+    import pysmt.logics as L
+    res = {}
+    failed = []
+    for which in ('A', 'B'):
+        env = common.fresh_env()
+        fac = env.factory
+        fac.add_generic_solver('c15g', ['/bin/echo', 'one'],
+                               [L.QF_LIA, L.QF_UFLIA])
+        if which == 'A':
+            for call in (
+                    lambda: fac.add_generic_solver(
+                        'c15g', ['/bin/false', 'two', 'x'], [L.QF_BV]),
+                    lambda: fac.add_generic_solver(
+                        'c15g', ['/bin/echo', 'one'], [L.QF_LIA],
+                        unsat_core_support=True),
+                    lambda: fac.get_solver(name='c15_no_such_solver'),
+                    lambda: fac.get_solver(name='c15g', logic=L.QF_BV),
+                    lambda: fac.get_quantifier_eliminator(
+                        name='c15_no_such')):
+                failed.append(outcome(call))
+        probes = [
+            ('info', lambda: repr(fac.get_generic_solver_info('c15g'))),
+            ('is_generic', lambda: fac.is_generic_solver('c15g')),
+            ('all_solvers', lambda: sorted(fac.all_solvers())),
+            ('all_lia', lambda: sorted(fac.all_solvers(logic=L.QF_LIA))),
+            ('all_bv', lambda: sorted(fac.all_solvers(logic=L.QF_BV))),
+            ('cores', lambda: sorted(fac.all_unsat_core_solvers())),
+            ('prefs', lambda: repr(sorted(fac.preferences.items()))),
+            ('qelims', lambda: sorted(fac.all_quantifier_eliminators())),
+        ]
+        res[which] = [(n, outcome(fn)) for n, fn in probes]
+    nfail = sum(1 for o in failed if o[0] == 'exc')
+    rep.count('failures_injected', nfail)
+    rep.count('factory_failures_injected', nfail)
+    rep.case(key='factory')
+    for (na, oa), (nb, ob) in zip(res['A'], res['B']):
+        rep.count('probes_compared')
+        if oa != ob:
+            rep.violation('%s/trace/factory/%s' % (PROP, na),
+                          'after refused factory calls %s, %s gives %s; '
+                          'without them %s' % ([o[1] for o in failed
+                                                if o[0] == 'exc'], na,
+                                               str(oa)[:200], str(ob)[:200]),
+                          {'kind': 'factory'})
+
+
 def run(rep):
+    if rep.shard == 2 % rep.nshards and (not rep.only or
+                                         rep.only == 'factory'):
+        factory_cases(rep)
     rep.share(0.35)
     if not rep.only or rep.only == 'solver':
         solver_cases(rep, random.Random(rep.seed * 31 + rep.shard),
